@@ -5,6 +5,7 @@ import (
 	"go/token"
 	"go/types"
 	"strings"
+	"verif/checker/internal/orderdom"
 
 	"verif/checker/internal/pathsim"
 	"verif/checker/internal/prog"
@@ -268,6 +269,76 @@ func init() {
 			})
 			if !okErr {
 				r.Fail(gs.Name()+":scan-error", gs.Decl.Pos(), nil, "GetState does not return the scan error: a failed read would look like empty state and the handler would overwrite it")
+			}
+			// grouping: the scan is ordered by (namespace, entry key); a new namespace group is started
+			// exactly when there is none yet or the entry's namespace differs from the current group's
+			var scanLoop *ast.RangeStmt
+			inspect(gs.Decl.Body, func(nd ast.Node) bool {
+				if rs, ok := nd.(*ast.RangeStmt); ok && scanLoop == nil && r.exprCalls(gi, rs.X, scan) {
+					scanLoop = rs
+				}
+				return true
+			})
+			if scanLoop != nil {
+				var group types.Object
+				nsText := ""
+				ast.Inspect(scanLoop.Body, func(nd ast.Node) bool {
+					as, ok := nd.(*ast.AssignStmt)
+					if !ok || as.Tok != token.ASSIGN || len(as.Lhs) != 1 || len(as.Rhs) != 1 {
+						return true
+					}
+					u, ok := ast.Unparen(as.Rhs[0]).(*ast.UnaryExpr)
+					if !ok || u.Op != token.AND {
+						return true
+					}
+					cl, ok := u.X.(*ast.CompositeLit)
+					if !ok {
+						return true
+					}
+					o := prog.IdentObjPlain(gi, as.Lhs[0])
+					if v, isVar := o.(*types.Var); !isVar || (v.Pos() > scanLoop.Body.Pos() && v.Pos() < scanLoop.Body.End()) {
+						return true
+					}
+					for _, el := range cl.Elts {
+						if kv, ok := el.(*ast.KeyValueExpr); ok {
+							if id, ok := kv.Key.(*ast.Ident); ok && id.Name == "Namespace" {
+								group, nsText = o, types.ExprString(kv.Value)
+							}
+						}
+					}
+					return true
+				})
+				if group == nil {
+					r.Fail(gs.Name()+":grouping", scanLoop.Pos(), nil, "GetState no longer groups the scanned entries by namespace")
+				} else {
+					var tail []ast.Stmt
+					for i, st := range scanLoop.Body.List {
+						found := false
+						ast.Inspect(st, func(m ast.Node) bool {
+							if id, ok := m.(*ast.Ident); ok && gi.Uses[id] == group {
+								found = true
+							}
+							return !found
+						})
+						if found {
+							tail = scanLoop.Body.List[i:]
+							break
+						}
+					}
+					gn := group.Name()
+					m := orderdom.New(gi, map[string]string{gn + " == nil": "?none", gn + " != nil": "?some", gn + ".Namespace": "cur", gn + ".GetNamespace()": "cur", nsText: "ns"})
+					m.AssignEffect = func(o types.Object) bool { return o == group }
+					m.IgnoreStores = true
+					res := m.CheckBody(tail,
+						func(e odEnv) bool { return e.Bool["?none"] != e.Bool["?some"] },
+						func(e odEnv) orderdom.Value {
+							if e.Bool["?none"] || e.Rank["cur"] != e.Rank["ns"] {
+								return orderdom.Sym("effect")
+							}
+							return orderdom.Sym("end")
+						})
+					r.finishOD(gs.Name()+":grouping", tail[0].Pos(), res, "no group yet || entry namespace != current group's namespace: start a new group")
+				}
 			}
 			// decodeKey result usage: namespace groups and entry key
 			dec := r.P.FuncObj("workers/operator", "(*KeyedStateStore).decodeKey")
